@@ -6,7 +6,7 @@ func init() {
 		Title: "The per-subscriber token bucket admits exactly the configured rate",
 		// control plane (Go): the writer of the buckets the kernel programs enforce
 		Pkgs:  []string{"./pkg/qos", "./pkg/radius"},
-		Funcs: []string{"qos.Manager.SetSubscriberQoS", "qos.Manager.SetSubscriberPolicy", "qos.Manager.RemoveSubscriberQoS", "qos.ipToKey"},
+		Funcs: []string{"qos.Manager.SetSubscriberQoS", "qos.Manager.SetSubscriberPolicy", "qos.Manager.RemoveSubscriberQoS", "qos.ipToKey", "radius.PolicyManager.AddPolicy"},
 		BPF: []BPFUnit{
 			{"qos_ratelimit.c", "qos_egress_prog"}, {"qos_ratelimit.c", "qos_ingress_prog"},
 		},
